@@ -102,4 +102,17 @@ def batchStart (e : REnv) (used same other : Nat) : REnv :=
 /-- everything closed and the waiter given time: it has run if it was pending -/
 def settle (e : REnv) : REnv := waiterStep { e with openTxs := 0 }
 
+/-! ### unbounded growth: batch after batch with nothing else open -/
+
+/-- `Store::batch()` issued with nothing open, once per element of `useds` (the `env_size` found
+by each call): the map sizes the environment goes through -/
+def growRun (e : REnv) : List Nat → REnv
+  | [] => e
+  | used :: r => growRun (maybeResize { e with openTxs := 0 } used).1 r
+
+/-- the invariant the growth run keeps after every batch that found usage `used` -/
+def GrowOk (chunk used : Nat) (e : REnv) : Prop :=
+  e.mapSize % chunk = 0 ∧ chunk ≤ e.mapSize ∧ used * 10 ≤ 9 * e.mapSize ∧
+  e.checking = false ∧ e.resizing = false ∧ e.pending = none
+
 end GV.Kv
